@@ -22,7 +22,7 @@ func init() {
 	core.Register(&core.Check{
 		ID:    "C13",
 		Level: "fault_enumeration",
-		Rule: "E-proc conservation: thousands of create/use/close cycles over prior histories {idle, 1-40 watches, pending events nobody reads, pending error (rename-then-delete family; plus one REAL queue overflow per fourth batch with Events drained and the overflow error left pending), 1-8 concurrent Close, Close racing Add/Remove, Close while a stream of events is being consumed}, with PRNG delays at the yield point inside Close (between 'marked closed' and 'descriptor closed'); " +
+		Rule: "E-proc conservation: thousands of create/use/close cycles over prior histories {idle, 1-40 watches, pending events nobody reads, pending error (rename-then-delete family; plus one REAL queue overflow per fourth batch with Events drained and the overflow error left pending), 1-8 concurrent Close, Close racing Add/Remove, Close while a stream of events is being consumed}, with PRNG delays at the yield point inside Close (between 'marked closed' and 'descriptor closed'); then 1500 (thorough 8000) short cycles per batch of the commonest shape - buffered Watcher, consumer receiving, a handful of events, Close; " +
 			"after Close returned and both channels closed, within a bounded number of polls: number of anon_inode:inotify descriptors == baseline, the Watcher's own descriptor number no longer names an inotify instance, total descriptors == baseline, no goroutine with a readEvents frame. " +
 			"History kind deleted-watch-pending (the kernel dropped a watch nobody has processed yet); the descriptor must be close-on-exec; Watchers are kept reachable until judged so no finalizer hides a leak. " +
 			"Injected faults: strace EIO on the inotify read followed by Close; RLIMIT_NOFILE lowered to the number of open descriptors so the first syscall of NewWatcher/NewBufferedWatcher fails with EMFILE, repeated; descriptors and goroutines must stay flat. " +
@@ -30,7 +30,7 @@ func init() {
 		Assumptions: []string{"closing the inotify instance releases its kernel marks (kernel semantics; per-user mark accounting is not readable)", "'shortly after' = within 2000 polls of 100 us after the channels closed; not reaching baseline within that is a violation only if it persists to the end of the batch"},
 		Batches:     func(t string) int { return map[string]int{"quick": 16, "thorough": 32}[t] },
 		RaceBatches: func(t string) int { return map[string]int{"quick": 1, "thorough": 8}[t] },
-		MustObserve: []string{"cycles", "failed_newwatcher_calls", "cycles_back_at_baseline", "overflow_error_pending_at_close"},
+		MustObserve: []string{"fast_cycles", "cycles", "failed_newwatcher_calls", "cycles_back_at_baseline", "overflow_error_pending_at_close"},
 		Run:         runC13,
 	})
 }
@@ -341,6 +341,60 @@ func runC13(c *core.Ctx) {
 		c.Count("cycles_back_at_baseline", 1)
 		runtime.KeepAlive(w) // reachable until judged: a finalizer closing the descriptor must not hide a leak
 	}
+	// ---- many short cycles of the commonest shape: buffered Watcher, a consumer at work, Close
+	fast := c.Pick(1500, 8000)
+	if c.Race {
+		fast = c.Pick(300, 1500)
+	}
+	ff := filepath.Join(dirs[0], "fast")
+	os.WriteFile(ff, nil, 0o644)
+	for i := 0; i < fast; i++ {
+		w, err := fsnotify.NewBufferedWatcher(uint([]int{1, 4, 8, 64}[i%4]))
+		if err != nil {
+			c.Broken("NewBufferedWatcher: " + err.Error())
+			return
+		}
+		w.Add(dirs[0])
+		cd := make(chan struct{})
+		go func() {
+			defer close(cd)
+			n := 0
+			for range w.Events {
+				if n++; n%3 == 0 {
+					runtime.Gosched()
+				}
+			}
+			for range w.Errors {
+			}
+		}()
+		for k := 0; k < 6+i%13; k++ {
+			os.Chmod(ff, 0o600+os.FileMode(k%2))
+		}
+		ok, dump := core.WithWatchdog(twin.WatchdogTimeout, func() { w.Close() })
+		if !ok {
+			if cls, d := persistentHangClass(dump); cls == "api-waits-for-reader-parked-in-send" {
+				c.Violate("close-waits-for-a-reader-that-never-exits", fmt.Sprintf("fast cycle %d [buffer %d, consumer receiving]: Close waits for the reader goroutine, which is parked on a channel operation and does not react to Close", i, []int{1, 4, 8, 64}[i%4]), dumpExcerpt(d))
+			} else {
+				c.Inconclusive("fast cycle: Close not returned at the watchdog, dump class " + cls)
+			}
+			return
+		}
+		select {
+		case <-cd:
+		case <-time.After(twin.WatchdogTimeout):
+			c.Inconclusive("fast cycle: channels not closed at the watchdog")
+			return
+		}
+		c.Count("fast_cycles", 1)
+		if i%200 == 199 || i == fast-1 {
+			if !settle("fast cycles", -1) {
+				c.Violate("leak-after-close", fmt.Sprintf("after %d fast cycles: inotify descriptors %d (baseline %d), descriptors %d (baseline %d), reader goroutines %d (baseline %d)", i+1, twin.InotifyFds(), baseIno, twin.OpenFds(), baseFds, readerGoroutines(), baseReaders), nil)
+				return
+			}
+		}
+		runtime.KeepAlive(w)
+	}
+	c.Eval(fast)
 	c.Max("goroutines_drift", int64(runtime.NumGoroutine()-baseGor))
 	c.Sample(map[string]interface{}{"cycles": cycles, "baseline_inotify_fds": baseIno, "baseline_fds": baseFds, "final_inotify_fds": twin.InotifyFds(), "final_fds": twin.OpenFds()})
 	// ---- injected fault: NewWatcher fails at its first syscall
